@@ -30,6 +30,10 @@ META = {
     "no hypothesis in between.  Compositions with C02 (Props/C08C02.lean): the result's public accessors -- .boundingbox "
     "covers the region up to tol and is minimal, .alignment IS the anchor fraction times the pixel size (and the "
     "deprecated align= of from_geopolygon is what .alignment reports), .resolution is the requested one.  "
+    "Second increment: regions / resolutions / tolerances that are nan or +-inf through the resolution branch "
+    "(Props/C08NonFinite.lean over Model/C20NonFinite.lean): a region with a non-finite coordinate is never turned into a "
+    "GeoBox (AssertionError / ValueError / OverflowError as the code raises them), on finite arguments the extended model is "
+    "C08's own branch; an infinite resolution with a floating anchor yields a 1x1 box (as found, replayed).  "
     "Model and /repo are compared exactly on every run (quotient-constructed dyadic operands, exhaustive at the "
     "tolerance edges, spans from sub-pixel to 2^20 pixels; every argument spelling incl. rejected ones with the "
     "projection substituted at the public to_crs methods; accessors .alignment/.boundingbox of the real object against "
@@ -44,8 +48,7 @@ META = {
     "projection (pyproj) behind crs='utm*' and from_geopolygon(crs=other) -- parameter of the model, exact correspondence with a "
     "substituted affine projection, real pyproj by the independent-projection oracle; the UTM zone choice (C11); densification "
     "options of to_crs; float() coercions of numpy scalars / 0-d arrays in bbox, anchor and tol (oracle only: "
-    "result-depends-on-numeric-spelling); non-finite coordinates (AssertionError / OverflowError from floor/ceil, probed "
-    "by hand, not modelled); a str given as shape is iterated digit by digit (driven as the sequence it amounts to); CRS "
+    "result-depends-on-numeric-spelling); non-finite values in the shape-driven branches and in anchors (the resolution branch is modelled); a str given as shape is iterated digit by digit (driven as the sequence it amounts to); CRS "
     "objects whose truth value is False; zoom_out / zoom_to(shape) live in Model/C02 (zoom_to(resolution=) is linked to "
     "C08.fromBbox by theorem zoom_to_resolution_is_from_bbox).",
     "technique": "Lean 4 proof over hand model + exhaustive/random differential correspondence with real code",
@@ -640,6 +643,45 @@ def sec_utm_branch_exact(R: Run):
         if out and mode == "res":
             bbox_oracle(R, out[0], env, (rx, ry), sn, tol, F(0), {"fn": "GeoBox.from_bbox(crs='utm')", "line": line}, "from-bbox-utm-branch")
     assert BoundingBox.to_crs is orig
+
+
+def sec_nonfinite(R: Run):
+    """nan / +-inf as region coordinates, resolution components and tol of from_bbox (resolution branch), every position,
+    against the non-finite model of Model/C20NonFinite.lean (`fromBboxResX`): shape and origin or the exception KIND;
+    oracle: a region with a non-finite coordinate is never turned into a GeoBox"""
+    from .c20 import xf_s, NONFIN
+    GB, GeoBox, _norm_anchor, geom, resxy_, xy_ = _import()
+    rng = R.rng
+    fin = [0.0, 4.0, 2.5, -3.0, 7.25]
+    snaps = [None, (F(0), F(0)), (F(1, 2), F(1, 2)), (F(1, 4), F(3, 4))]
+    tols = [0.01, 0.0, 0.25] + NONFIN
+    combos = []
+    for l in fin[:3] + NONFIN:
+        for b in fin[:2] + NONFIN:
+            for r in fin[1:] + NONFIN:
+                for t in fin[1:4] + NONFIN:
+                    for rx in [1.0, -0.5] + NONFIN:
+                        for ry in [-1.0, 0.5] + NONFIN:
+                            for sn in snaps:
+                                for tol in tols:
+                                    if not all(math.isfinite(v) for v in (l, b, r, t, rx, ry, tol)):
+                                        combos.append((l, b, r, t, rx, ry, sn, tol))
+    if R.quick:
+        combos = rng.sample(combos, 2500)
+    for (l, b, r, t, rx, ry, sn, tol) in combos:
+        anchor = GB.AnchorEnum.FLOATING if sn is None else xy_(float(sn[0]), float(sn[1]))
+
+        def f():
+            g = GeoBox.from_bbox((l, b, r, t), CRS, resolution=resxy_(rx, ry), anchor=anchor, tol=tol)
+            return f"{g.shape[0]} {g.shape[1]} {xf_s(g.affine.c)} {xf_s(g.affine.f)}"
+
+        where = sorted({n for n, v in (("region", l), ("region", b), ("region", r), ("region", t), ("res", rx), ("res", ry), ("tol", tol)) if not math.isfinite(v)})
+        line = (f"c08 bboxresx {xf_s(l)} {xf_s(b)} {xf_s(r)} {xf_s(t)} {xf_s(rx)} {xf_s(ry)} "
+                f"{'N' if sn is None else frac_s(sn[0]) + ';' + frac_s(sn[1])} {xf_s(tol)}")
+        o = R.corr(line, f, sig=f"bboxresx|{'float' if sn is None else 'snap'}|nonfinite={'+'.join(where)}")
+        if not all(math.isfinite(v) for v in (l, b, r, t)):
+            R.oracle(o.startswith("ERR:"), "from-bbox-accepts-nonfinite-region", {"fn": "GeoBox.from_bbox", "line": line},
+                     f"from_bbox(({l!r},{b!r},{r!r},{t!r}), resolution=({rx!r},{ry!r}), tol={tol!r}) returned {o}", sig="bboxresx-reject")
 
 
 # ------------------------------------------------------------------ public argument forms (Model/C08Args.lean)
@@ -1599,6 +1641,7 @@ def run(R: Run):
                 call(bbF, tight, rng.randint(1, 5000), None, anch, F(tolf), "float-int-shape", False, F(1, 10**9))
     sec_utm_branch_exact(R)
     sec_forms(R)
+    sec_nonfinite(R)
     sec_spelling(R)
     sec_cross_crs(R)
     sec_utm_shortcut(R)
